@@ -647,9 +647,10 @@ def f18_probe(out, seed, n=24):
 
 def mc(out, tier):
     ok_cfgs = ["c1", "a1", "live2"] + (["c2", "a2", "live", "f18fix"] if tier == "thorough" else [])
-    bad_cfgs = {"x_mix": "NoMixture", "x_diag": "Convergence", "x_hold": "NoDeadlock", "x_snap": "IssuedVersion", "x_f18": "NoDeadlock"}
+    bad_cfgs = {"x_mix": "NoMixture", "x_diag": "Convergence", "x_stale": "Convergence", "x_hold": "NoDeadlock",
+                "x_snap": "IssuedVersion", "x_f18": "NoDeadlock"}
     if tier == "thorough":
-        bad_cfgs.update({"x_mix1": "NoMixture", "x_diag2": "Convergence"})
+        bad_cfgs.update({"x_mix1": "NoMixture", "x_diag2": "Convergence", "x_diag3": "Convergence"})
     for c in ok_cfgs:
         r = vlib.tlc("Server", f"Server_{c}.cfg", workers=8, timeout=3000, coverage=(c == "c1"), heap="8g")
         vlib.require_ok(r, "Server " + c)
